@@ -97,10 +97,12 @@ def run(tier, seed, replay):
     rc, out = sh("command -v rustfmt")
     REAL_RUSTFMT = out.strip().split("\n")[-1] if rc == 0 else None
     shs = shaders(rng, tier)
-    base_cases = [{"id": i, "wgsl": w, "include": None, "opts": {"rustfmt": False}, "want_text": True}
+    # the other switches vary with the shader: the formatter must not change the program under any of them
+    derive_sets = [{}, {"serde": True, "bm_vertex": True}, {"serde": True, "mv": "Glam"}, {"bm_vertex": True, "mv": "Nalgebra"}, {"serde": True}]
+    base_cases = [{"id": i, "wgsl": w, "include": None, "opts": dict(derive_sets[i % len(derive_sets)], rustfmt=False), "want_text": True}
                   for i, (_, w) in enumerate(shs)]
     base = run_driver(base_cases, workdir, "base")
-    fmt_cases = [dict(c, opts={"rustfmt": True}) for c in base_cases]
+    fmt_cases = [dict(c, opts=dict(c["opts"], rustfmt=True)) for c in base_cases]
     violations, broken, evals, samples, dist = [], [], 0, [], {}
     coq_items = []
     for fault, script in STUBS.items():
